@@ -53,6 +53,7 @@ type AssertionModel struct {
 
 	HasSubject     bool `json:"hasSubject"`
 	NameID         Opt  `json:"nameID"`
+	NameIDFormat   Opt  `json:"nameIDFormat"` // Format attribute of the NameID
 	HasSC          bool `json:"hasSC"`
 	SCMethod       Opt  `json:"scMethod"`
 	HasSCD         bool `json:"hasSCD"`
@@ -72,6 +73,7 @@ type AssertionModel struct {
 
 	HasAttrStmt bool        `json:"hasAttrStmt"`
 	Attrs       []AttrModel `json:"attrs"`
+	AttrFirst   bool        `json:"attrFirst,omitempty"` // AttributeStatement written before AuthnStatement (the schema allows either order)
 
 	HasAuthn            bool `json:"hasAuthn"`
 	SessionIndex        Opt  `json:"sessionIndex"`
@@ -81,33 +83,37 @@ type AssertionModel struct {
 }
 
 type ResponseModel struct {
-	ID           Opt  `json:"id"`
-	InResponseTo Opt  `json:"inResponseTo"`
-	Destination  Opt  `json:"destination"`
-	Version      Opt  `json:"version"`
-	IssueInstant Opt  `json:"issueInstant"`
-	Issuer       Opt  `json:"issuer"`
-	HasStatus    bool `json:"hasStatus"`
-	HasCode      bool `json:"hasCode"`
-	StatusCode   Opt  `json:"statusCode"`
+	ID           Opt      `json:"id"`
+	InResponseTo Opt      `json:"inResponseTo"`
+	Destination  Opt      `json:"destination"`
+	Version      Opt      `json:"version"`
+	IssueInstant Opt      `json:"issueInstant"`
+	Issuer       Opt      `json:"issuer"`
+	HasStatus    bool     `json:"hasStatus"`
+	HasCode      bool     `json:"hasCode"`
+	StatusCode   Opt      `json:"statusCode"`
+	SubCodes     []string `json:"subCodes,omitempty"` // subordinate StatusCode values, each nested in the previous one
+	StatusMsg    Opt      `json:"statusMessage"`
 
 	Assertions []AssertionModel `json:"assertions"`
 }
 
 // LogoutModel covers LogoutRequest and LogoutResponse.
 type LogoutModel struct {
-	Kind         string `json:"kind"` // "LogoutRequest" | "LogoutResponse"
-	ID           Opt    `json:"id"`
-	InResponseTo Opt    `json:"inResponseTo"` // response only
-	Destination  Opt    `json:"destination"`
-	Version      Opt    `json:"version"`
-	IssueInstant Opt    `json:"issueInstant"`
-	Issuer       Opt    `json:"issuer"`
-	NameID       Opt    `json:"nameID"`       // request only
-	SessionIndex Opt    `json:"sessionIndex"` // request only
-	HasStatus    bool   `json:"hasStatus"`    // response only
-	HasCode      bool   `json:"hasCode"`
-	StatusCode   Opt    `json:"statusCode"`
+	Kind         string   `json:"kind"` // "LogoutRequest" | "LogoutResponse"
+	ID           Opt      `json:"id"`
+	InResponseTo Opt      `json:"inResponseTo"` // response only
+	Destination  Opt      `json:"destination"`
+	Version      Opt      `json:"version"`
+	IssueInstant Opt      `json:"issueInstant"`
+	Issuer       Opt      `json:"issuer"`
+	NameID       Opt      `json:"nameID"`       // request only
+	SessionIndex Opt      `json:"sessionIndex"` // request only
+	HasStatus    bool     `json:"hasStatus"`    // response only
+	HasCode      bool     `json:"hasCode"`
+	StatusCode   Opt      `json:"statusCode"`
+	SubCodes     []string `json:"subCodes,omitempty"`
+	StatusMsg    Opt      `json:"statusMessage"`
 }
 
 // NSStyle chooses prefixes. Empty prefix = default namespace.
@@ -181,7 +187,9 @@ func BuildAssertion(a *AssertionModel, ns NSStyle) *etree.Element {
 		sub := ns.aEl("Subject", true)
 		el.AddChild(sub)
 		if a.NameID.Set {
-			sub.AddChild(textEl(ns.aEl("NameID", true), a.NameID.V))
+			n := textEl(ns.aEl("NameID", true), a.NameID.V)
+			setOpt(n, "Format", a.NameIDFormat)
+			sub.AddChild(n)
 		}
 		if a.HasSC {
 			sc := ns.aEl("SubjectConfirmation", true)
@@ -220,9 +228,13 @@ func BuildAssertion(a *AssertionModel, ns NSStyle) *etree.Element {
 			}
 		}
 	}
+	var authnEl *etree.Element
 	if a.HasAuthn {
 		as := ns.aEl("AuthnStatement", true)
-		el.AddChild(as)
+		authnEl = as
+		if !(a.AttrFirst && a.HasAttrStmt) {
+			el.AddChild(as)
+		}
 		setOpt(as, "AuthnInstant", a.AuthnInstant)
 		setOpt(as, "SessionIndex", a.SessionIndex)
 		setOpt(as, "SessionNotOnOrAfter", a.SessionNotOnOrAfter)
@@ -249,6 +261,9 @@ func BuildAssertion(a *AssertionModel, ns NSStyle) *etree.Element {
 				ae.AddChild(ve)
 			}
 		}
+	}
+	if a.AttrFirst && a.HasAttrStmt && authnEl != nil {
+		el.AddChild(authnEl)
 	}
 	return el
 }
@@ -284,6 +299,10 @@ func BuildResponse(m *ResponseModel, ns NSStyle) *etree.Element {
 			sc := mk(ns.P, "StatusCode")
 			st.AddChild(sc)
 			setOpt(sc, "Value", m.StatusCode)
+			addSubCodes(sc, ns, m.SubCodes)
+		}
+		if m.StatusMsg.Set {
+			st.AddChild(textEl(mk(ns.P, "StatusMessage"), m.StatusMsg.V))
 		}
 	}
 	for i := range m.Assertions {
@@ -318,9 +337,24 @@ func BuildLogout(m *LogoutModel, ns NSStyle) *etree.Element {
 			sc := mk(ns.P, "StatusCode")
 			st.AddChild(sc)
 			setOpt(sc, "Value", m.StatusCode)
+			addSubCodes(sc, ns, m.SubCodes)
+		}
+		if m.StatusMsg.Set {
+			st.AddChild(textEl(mk(ns.P, "StatusMessage"), m.StatusMsg.V))
 		}
 	}
 	return root
+}
+
+// addSubCodes nests subordinate status codes (SAML Core 3.2.2.2) under the top-level one.
+func addSubCodes(top *etree.Element, ns NSStyle, subs []string) {
+	cur := top
+	for _, v := range subs {
+		sc := mk(ns.P, "StatusCode")
+		sc.CreateAttr("Value", v)
+		cur.AddChild(sc)
+		cur = sc
+	}
 }
 
 // Prettify inserts newline+indent whitespace between element children of
